@@ -66,6 +66,7 @@ import bisect, json, os, re, select as _select, shutil, signal, subprocess, temp
 from concurrent.futures import ThreadPoolExecutor
 
 IMPL = os.environ.get("VERIF_IMPL_DIR", "/verif/.build")
+EXTRA_INJECT = []        # extra `-e inject=` expressions applied to every traced run (fault-free baseline included)
 SCRATCH = os.environ.get("CC_TRACE_SCRATCH", "/verif/.build/scratch-trace")
 STRACE = os.environ.get("CC_STRACE", "strace")
 STRSIZE = 4000000
@@ -728,6 +729,8 @@ def trace_ops(flavour, cache, ext, ops, env=None, timeout=120, link_to=False, wa
                 "-e", "trace=" + ",".join("?" + n for n in TRACE_SET)]
         if inject:
             argv += ["-e", "inject=" + inject]
+        for extra in EXTRA_INJECT:          # persistent environment faults (e.g. every rename fails), set by the caller
+            argv += ["-e", "inject=" + extra]
         if pin:
             argv += ["-P", pin]
         argv += ["-p", str(others[0])]
